@@ -27,7 +27,8 @@ from functools import partial
 from . import cpu_count, get_context
 from . import util
 from .common import (
-    TERM_SIGNAL, human_status, pickle_loads, reset_signals, restart_state,
+    TERM_SIGNAL, _should_have_exited, human_status, pickle_loads,
+    reset_signals, restart_state,
 )
 from .compat import get_errno, mem_rss, send_offset
 from .einfo import ExceptionInfo
@@ -361,6 +362,10 @@ class Worker:
                     try:
                         result = (True, prepare_result(fun(*args, **kwargs)))
                     except BaseException:
+                        if _should_have_exited[0]:
+                            # the termination signal handler ran: this is
+                            # its SystemExit, not a failure of the task.
+                            raise
                         result = (False, ExceptionInfo())
                     try:
                         put((READY, (job, i, result, inqW_fd)))
@@ -422,6 +427,8 @@ class Worker:
 
         # Make sure all exiting signals call finally: blocks.
         # This is important for the semaphore to be released.
+        # (the exit flag may have been inherited set from the parent.)
+        _should_have_exited[0] = False
         reset_signals(full=self.sigprotection)
 
         # install signal handler for soft timeouts.
